@@ -222,6 +222,7 @@ def run_e3(tier, seed, specfile=None, count=None):
                 parse(o.splitlines())
                 if k not in done:
                     add("C07", tag, k, "executing the generated code of this definition killed the process (exit %s): memory corruption or abort" % rc)
+                    add("C04", tag, k, "the process died (exit %s) while records of this definition were built, read and unpacked: the values put in were not given back" % rc)
         res["counts"][tag] = len(done)
     res["modules"] = len(specs)
     res["scenarios"] = sum(scen.values())
